@@ -70,6 +70,9 @@ def _events(fd, cls, shadow, depth=0):
             elif isinstance(n, ast.Subscript) and isinstance(n.ctx, ast.Load) and norm(n.value) in ('self', 'self.%s' % shadow):
                 if not (isinstance(n.slice, ast.Slice)):
                     evs.append(('R', n, 'subscript', n.slice))
+            elif isinstance(n, ast.Subscript) and isinstance(n.ctx, ast.Del) and norm(n.value) == 'self.%s' % shadow:
+                evs.append(('R', n, 'shadow.pop', n.slice))
+                evs.append(('S', n, 'pop'))
         return evs
 
     paths = [[]]
@@ -215,7 +218,7 @@ def r18_c(ctx):
                         if not ok:
                             problems.append((ev[1], 'shadow.pop with an unproved index after the list was written'))
                     elif what == 'subscript':
-                        ok = isinstance(arg, ast.Constant)
+                        ok = isinstance(arg, ast.Constant) or (isinstance(arg, ast.Name) and arg.id in known)
                         if not ok:
                             problems.append((ev[1], 'computed index %s on the just-modified list (IndexError)' % norm(ev[1])))
             rr.ob(not problems, {'operation': op, 'path_events': [e[0] for e in p][:14]})
@@ -430,8 +433,9 @@ def r18_f(ctx):
             continue
         fd = fds[-1]
         ip = fd.params()[1] if len(fd.params()) > 1 else None
+        from .model import resolve_locals
         positional = [n for n in ast.walk(fd.node) if _is_super_call(n, {op}) and n.args and
-                      any(isinstance(x, ast.Name) and x.id == ip for x in ast.walk(n.args[0]))]
+                      any(isinstance(x, ast.Name) and x.id == ip for x in ast.walk(resolve_locals(fd.node, n.args[0])))]
         by_eq = [n for n in ast.walk(fd.node) if isinstance(n, ast.Call) and isinstance(n.func, ast.Attribute)
                  and n.func.attr in ('remove', 'index') and (norm(n.func.value) == 'self' or _is_super_call(n))]
         ok = bool(positional) and not by_eq
